@@ -178,7 +178,8 @@ def py_meta_key(m):
         if v is None:
             return ("none",)
         if isinstance(v, (bool, int, float, np.integer, np.floating)):
-            return ("num", float(v))
+            import fractions
+            return ("num", fractions.Fraction(v.item() if isinstance(v, np.generic) else v))   # exact: 0 != 2**61 - 1
         if isinstance(v, datetime.date):
             return ("date", v.isoformat())
         return ("str", v)
@@ -771,6 +772,47 @@ def directed_cases(ctx):
     return out
 
 
+HASH_COLLIDERS = [(-1, -2), (-1.0, -2.0), (0, 2 ** 61 - 1), (-1, -2.0), (2 ** 61 - 1, 2 * (2 ** 61 - 1))]
+
+
+def hashcol_cells(rng, cells, basis):
+    """family M: sibling slices whose metadata differ ONLY by values with colliding CPython hashes
+    (hash(-1) == hash(-2), hash(0) == hash(2**61-1)), same periods, same or different evaluation dates."""
+    from bermuda import Metadata
+
+    where = rng.choice(["details", "loss_details", "per_occurrence_limit"])
+    pair = list(rng.choice(HASH_COLLIDERS))
+    if rng.random() < 0.3:
+        pair.append(rng.choice([-3, 1, 5.5]))            # a third, ordinary sibling
+    rng.shuffle(pair)
+    base = meta_kwargs(cells[0].metadata)
+    metas = []
+    for v in pair:
+        kw = {k: (dict(x) if isinstance(x, dict) else x) for k, x in base.items()}
+        if where == "per_occurrence_limit":
+            kw[where] = v
+        else:
+            kw[where]["layer_code"] = v
+        metas.append(Metadata(**kw))
+    rows = rows_of([c for c in cells if py_meta_key(c.metadata) == py_meta_key(cells[0].metadata)])
+    out = []
+    same_evs = rng.random() < 0.5
+    for j, m in enumerate(metas):
+        for r in rows:
+            keep = list(r)
+            if j > 0 and not same_evs and len(keep) >= 2:
+                del keep[rng.randrange(len(keep))]
+            prev = r[0].period_start - ONE
+            for c in keep:
+                vals = {k: (v + j if v is not None else v) for k, v in c.values.items()}
+                if basis == "inc":
+                    out.append(rebuild(c, metadata=m, values=vals, prev_evaluation_date=prev))
+                    prev = c.evaluation_date
+                else:
+                    out.append(rebuild(c, metadata=m, values=vals))
+    return out
+
+
 def gen_cases(ctx, n_total):
     """-> list of dicts {label, basis, cells(list), info}"""
     from bermuda import Cell, Triangle
@@ -792,6 +834,8 @@ def gen_cases(ctx, n_total):
             stream = "eqmeta"
         elif stream == "valid" and u > 0.70 and basis == "cum":
             stream = "seq"
+        elif stream == "valid" and u > 0.64:
+            stream = "hashcol"
         n_slices = rng.choice([1, 1, 2, 3, 4])
         same_fields = rng.random() < 0.75
         fields = rng.sample(FIELDS, rng.randint(1, 3))
@@ -826,6 +870,8 @@ def gen_cases(ctx, n_total):
                 m = malform(rng, cells, basis)
                 if m is not None:
                     cells, label = m[0], "eqmeta+" + m[1]
+        elif stream == "hashcol":
+            cells, label = hashcol_cells(rng, cells, basis), "hashcol"
         recipe = None
         if stream == "seq":
             recipe = make_sequence(rng, cells)
@@ -1103,7 +1149,8 @@ def run(ctx):
         "mismatch, length-1 arrays, scalar/array mix, int/float mix, duplicate cells, key order); ~12% 'eqmeta': every "
         "cell carries its own equal-but-distinct Metadata object (detail keys in another insertion order, 7 vs 7.0), "
         "partly with a malformed chain; ~5% 'seq': hash/convert an old triangle, derive_metadata, append a valuation "
-        "with directly built equal Metadata, convert; plus ~60 directed cases per run for the input families of "
+        "with directly built equal Metadata, convert; ~5% 'hashcol': sibling slices differing only by hash-colliding values "
+        "(-1/-2, -1.0/-2.0, 0/2**61-1) in a detail, loss_detail or the limit, same or different evaluation dates; plus ~60 directed cases per run for the input families of "
         "notes/HARDENING.md (A equal spellings incl. True/1/1.0, B flatten-alike metadata, C calendar corners, D datetime/"
         "Timestamp coordinates, E falsy values and empty value dicts, F empty/one-cell/scalars-after-samples, G numpy scalar "
         "and narrow/strided array types, H repeated calls and calls after the caller edited a result (every case), I restated "
